@@ -266,6 +266,16 @@ pub fn minimize(def: &PropDef, sc: &Scenario, v: &Violation, budget: Duration) -
                 }
             }
         }
+        // 3b. plain header blocks
+        if best.script.iter().any(|st| st.hdr != 0) && !out_of_time(&t0) {
+            let mut c = best.clone();
+            c.script.iter_mut().for_each(|st| st.hdr = 0);
+            if let Some(w) = still(def, &c, &bestv) {
+                best = c;
+                bestv = w;
+                progress = true;
+            }
+        }
         // 4. shrink edits in batches and texts
         for i in 0..best.script.len() {
             if out_of_time(&t0) {
